@@ -71,11 +71,25 @@ func (h *DefaultPropertyHandler) Handle(src []byte) error {
 	if err != nil {
 		return err
 	}
+	lastProperty := h.lastUpdateProperty
 	isConsistent := h.isPropertyConsistent(realProperty)
 	if isConsistent {
 		return nil
 	}
-	return h.updater(realProperty)
+	updated := false
+	defer func() {
+		if !updated {
+			// The property didn't take effect downstream (the updater failed or panicked).
+			// Forget it, otherwise the same property would be skipped as consistent
+			// when it is delivered again and would never be applied.
+			h.lastUpdateProperty = lastProperty
+		}
+	}()
+	if err := h.updater(realProperty); err != nil {
+		return err
+	}
+	updated = true
+	return nil
 }
 
 func NewDefaultPropertyHandler(converter PropertyConverter, updater PropertyUpdater) *DefaultPropertyHandler {
